@@ -14,7 +14,8 @@ AllCodons == "TTTTTCTTATTGTCTTCCTCATCGTATTACTAATAGTGTTGCTGATGGCTTCTCCTACTGCCTCCC
 S3 == AllCodons \o "ATGATGGCTGCTGCTGCAAAAAAGTAA"
 S4 == AllCodons \o AllCodons \o "ctgctgctgctgctgCTTgaagaagagTGATGA"
 S5 == "AUGaugGCUuaaATGGCNatgUAA"                \* RNA spelling mixed in: only ATG, atg count
-Seqs == {S1, S2, S3, S4, S5}
+S6 == "AUGGCAAAAugaGGCgcaUAA"                   \* a transcript: U throughout, no T anywhere: GCA, AAA, GGC, gca count
+Seqs == {S1, S2, S3, S4, S5, S6}
 CountOf == [s \in Seqs |-> Count(s)]
 ASSUME AllCodonsOnce == Count(AllCodons) = Ones
 
